@@ -180,7 +180,7 @@ CLAIMED = {
          '(finite table), the theorems cover the registration state machine and the decision table.'),
  'C19': ('Theorems emitted_selector_resolves (every selector the import manager of config_str() emits resolves, in a file making exactly '
          'its imports in any order, to the object it was built for - also after re-aliasing) / bound_names_distinct / inv_addAll / '
-         'resolve_follows_attrs / unbound_first_is_name_error / follow_append / same_object_same_key / same_spelling_other_file / boundName_forms / '
+         'resolve_follows_attrs / unbound_first_is_name_error / follow_append / same_object_same_key / same_spelling_other_file / no_import_binds_reserved / printed_import_accepted / boundName_forms / '
          'import_binds / gin_is_reserved / enabling_rules / include_isolated hold for every object graph, symbol table and statement list; '
          'the mirror (per-file symbol table, attribute-chain resolution, bindings keyed by the resolved object) is tied to gin.config by '
          'generated files over a real package tree (harness/c19pkg: packages, re-exported names, nested class, methods, colliding leaf '
